@@ -42,6 +42,14 @@ type scenario struct {
 	After string  `json:"after"`           // honest | silent
 	Peers int     `json:"peers"`           // serving peers (2 or 3)
 	StallMs int   `json:"stall_ms,omitempty"`
+	PeerTimeoutS int `json:"peer_timeout_s,omitempty"` // pool peer timeout for this run (default 3; scaled up by the parent on a slow machine)
+}
+
+func (s *scenario) timeoutS() int {
+	if s.PeerTimeoutS > 0 {
+		return s.PeerTimeoutS
+	}
+	return peerTimeoutS
 }
 
 func (s *scenario) String() string {
@@ -69,6 +77,8 @@ type result struct {
 	Events       []string         `json:"events,omitempty"`
 	Why          string           `json:"why,omitempty"`
 	WallMs       int64            `json:"wall_ms"`
+	ReleaseMs    int64            `json:"release_ms"` // switch start -> all heights requested
+	PoolLocked   bool             `json:"pool_locked,omitempty"`
 }
 
 // ------------------------------------------------------------------ syncing node
@@ -200,11 +210,11 @@ type world struct {
 	tamperSent int
 	events    []string
 	start     time.Time
-	tickBase  time.Time
 	progress  time.Time
 	applied   []int64
 	vios      []vio
 	invalid   string
+	releaseMs int64
 	out       *os.File
 }
 
@@ -257,7 +267,8 @@ func (w *world) onDisconnected(sp *speer, peer *p2p.Peer) {
 	}
 	sp.drops++
 	w.logf("%s disconnected by the syncing node", sp.name)
-	if sp.honest && !w.released {
+	if !w.released && w.invalid == "" {
+		// a peer timed out while the harness was still holding its responses: the scenario was not set up
 		w.invalid = sp.name + " lost its connection while responses were being held (harness timing)"
 	}
 	if sp.honest && sp.reconn < 3 {
@@ -345,20 +356,6 @@ func (w *world) waitRequested(lo, hi int64, d time.Duration) bool {
 	}
 }
 
-// afterTick waits until just after a tick of the reactor's one-second
-// switch-to-consensus ticker (which started with the switch): a pool whose only
-// peer reports height 1 counts as caught up at that tick, so the phase in which
-// that is the case is started with a whole period ahead.
-func (w *world) afterTick() {
-	for {
-		since := time.Since(w.tickBase) % time.Second
-		if since >= 40*time.Millisecond && since <= 150*time.Millisecond {
-			return
-		}
-		time.Sleep(5 * time.Millisecond)
-	}
-}
-
 // drive brings the peers in so that the pool asks the malicious peer exactly
 // for [A,B], then releases the held responses in the enumerated order.
 func (w *world) drive() {
@@ -371,7 +368,7 @@ func (w *world) drive() {
 		}
 		w.mu.Unlock()
 	}
-	const phaseWait = 10 * time.Second
+	phaseWait := 20 * time.Duration(w.sc.timeoutS()) * time.Second
 	if sc.Kind == "none" {
 		for _, sp := range w.peers {
 			w.announce(sp, chainLen)
@@ -383,17 +380,11 @@ func (w *world) drive() {
 	} else {
 		if sc.A > 1 {
 			// the honest peer is a live node whose chain is still at A-1
-			if sc.A-1 <= 1 {
-				w.afterTick()
-			}
 			w.announce(p1, sc.A-1)
 			if !w.waitRequested(1, sc.A-1, phaseWait) {
 				fail("phase 1: requests did not arrive")
 				return
 			}
-		}
-		if sc.B <= 1 {
-			w.afterTick()
 		}
 		w.announce(m, sc.B)
 		if !w.waitRequested(sc.A, sc.B, phaseWait) {
@@ -421,6 +412,7 @@ func (w *world) drive() {
 	w.held = nil
 	w.released = true
 	w.progress = time.Now()
+	w.releaseMs = int64(time.Since(w.start) / time.Millisecond)
 	w.logf("release in order %v", sc.Order)
 	w.mu.Unlock()
 	for _, x := range order {
@@ -637,7 +629,7 @@ func runScenario(sc *scenario, dir string, out *os.File) *result {
 		core.Fatal("cannot build the source chain: %v", err)
 	}
 	res.ChainDigest = c.digest
-	bc.VerifSetPeerTimeoutSeconds(peerTimeoutS)
+	bc.VerifSetPeerTimeoutSeconds(int64(sc.timeoutS()))
 	pbft.SetVerifMsgQueueSize(4)
 	node, err := newSyncNode(c, dir+"/sync-wal")
 	if err != nil {
@@ -668,7 +660,6 @@ func runScenario(sc *scenario, dir string, out *os.File) *result {
 	for _, sp := range w.peers {
 		w.connect(sp)
 	}
-	w.tickBase = time.Now()
 	if _, err := node.sw.Start(); err != nil {
 		core.Fatal("cannot start the syncing switch: %v", err)
 	}
@@ -676,7 +667,8 @@ func runScenario(sc *scenario, dir string, out *os.File) *result {
 	w.progress = w.start
 	go w.drive()
 
-	stall := 30 * time.Second
+	// no block applied for three status-refresh periods (the reactor's longest timer) plus four peer timeouts
+	stall := 30*time.Second + 4*time.Duration(sc.timeoutS())*time.Second
 	if sc.StallMs > 0 {
 		stall = time.Duration(sc.StallMs) * time.Millisecond
 	}
@@ -728,13 +720,21 @@ LOOP:
 	for _, sp := range w.peers {
 		byKey[sp.sw.NodeInfo().PubKey.KeyString()] = sp.name
 	}
-	for k, h := range node.bcR.VerifPool().VerifPeerHeights() {
-		res.PoolPeers[byKey[k]] = h
+	phc := make(chan map[string]int64, 1)
+	go func() { phc <- node.bcR.VerifPool().VerifPeerHeights() }()
+	select {
+	case ph := <-phc:
+		for k, h := range ph {
+			res.PoolPeers[byKey[k]] = h
+		}
+	case <-time.After(5 * time.Second):
+		res.PoolLocked = true // the pool's mutex is held by somebody who never returns
 	}
 	w.mu.Lock()
 	res.Applied = w.applied
 	res.Violations = w.vios
 	res.TamperSent = w.tamperSent
+	res.ReleaseMs = w.releaseMs
 	res.Events = w.events
 	for _, sp := range w.peers {
 		res.Requests[sp.name] = sp.requests
